@@ -67,6 +67,7 @@ def check(ctx: Ctx) -> None:
     check_projection(ctx)
     check_chordal(ctx)
     check_whitening(ctx)
+    check_gmd_bookkeeping(ctx)
 
 
 def _mat(ctx: Ctx, it: X.MatInterp, fn, args, what: str) -> X.Val:
@@ -220,6 +221,60 @@ def check_whitening(ctx: Ctx) -> None:
            'the whitened covariance is not the identity')
 
 
+def check_gmd_bookkeeping(ctx: Ctx, rule: str = 'C20.f') -> None:
+    """%s: the GMD sweep keeps its permutation and the inverse permutation mutually inverse (paired update)."""
+    from ..astutil import stmts_in_order
+    from ..model import walk_no_nested
+    M = ctx.model
+    ctx.rule(rule, 'gmd(): the location permutation and its inverse are updated as a pair - `j = inv[a]; perm[j] = b` is accompanied by '
+                      '`inv[b] = j` in the same block (otherwise the inverse goes stale after the first repeated swap, from 5 singular values on)',
+             floor=1)
+    fn = M.func(MISC, 'gmd')
+    ctx.instance(rule, 'gmd')
+    ident = {}
+    for n in walk_no_nested(fn.node):
+        if isinstance(n, ast.Assign) and len(n.targets) == 1 and isinstance(n.targets[0], ast.Name):
+            v = norm(n.value).replace(' ', '')
+            if v.startswith('np.r_[0:') or v.startswith('np.arange(') or v.startswith('list(range('):
+                ident[n.targets[0].id] = v
+    perms = sorted(ident)
+    if len(perms) < 2:
+        ctx.error(rule + ': gmd no longer keeps a permutation and its inverse as two index arrays (%s): cannot tell' % perms)
+    # blocks: statement lists
+    found, broken = [], []
+    for blk_owner in ast.walk(fn.node):
+        for fld in ('body', 'orelse'):
+            body = getattr(blk_owner, fld, None)
+            if not (isinstance(body, list) and body and isinstance(body[0], ast.stmt)):
+                continue
+            defs = {}
+            for st in body:
+                if isinstance(st, ast.Assign) and len(st.targets) == 1:
+                    t, v = st.targets[0], st.value
+                    if isinstance(t, ast.Name) and isinstance(v, ast.Subscript) and isinstance(v.value, ast.Name) and v.value.id in ident:
+                        defs[t.id] = (v.value.id, norm(v.slice))            # j = inv[a]
+            for st in body:
+                if isinstance(st, ast.Assign) and len(st.targets) == 1 and isinstance(st.targets[0], ast.Subscript):
+                    t = st.targets[0]
+                    if isinstance(t.value, ast.Name) and t.value.id in ident and isinstance(t.slice, ast.Name) and t.slice.id in defs \
+                            and defs[t.slice.id][0] != t.value.id:
+                        X, j, b = t.value.id, t.slice.id, norm(st.value)      # X[j] = b  with  j = Y[a]
+                        Y = defs[j][0]
+                        partner = [s2 for s2 in body if isinstance(s2, ast.Assign) and len(s2.targets) == 1 and isinstance(s2.targets[0], ast.Subscript)
+                                   and isinstance(s2.targets[0].value, ast.Name) and s2.targets[0].value.id == Y and norm(s2.value) == j]
+                        if any(norm(s2.targets[0].slice) == b for s2 in partner):
+                            found.append('%s[%s] = %s ; %s[%s] = %s' % (X, j, b, Y, b, j))
+                        else:
+                            broken.append((st, '%s[%s] = %s without %s[%s] = %s (found: %s)'
+                                           % (X, j, b, Y, b, j, [norm(s2)[:30] for s2 in partner])))
+    if not found and not broken:
+        ctx.error(rule + ': the paired update of %s is not recognised in gmd (cannot tell)' % perms)
+    ctx.obligation(rule, 'gmd', not broken, {'paired_updates': found, 'unpaired': [b[1] for b in broken]})
+    for st, why in broken[:1]:
+        ctx.violation(rule, 'gmd', 'permutation bookkeeping broken: %s; the inverse permutation goes stale, Q R P^H no longer reconstructs the matrix '
+                      'for 5 or more singular values' % why, fn.path, st.lineno, operand='paired-update')
+
+
 def synthetic():
     a = T.parse_spec('10 * log10(pow(10, x / 20.0))')
     return [('non-inverse-composition-detected', a != T.Term.sym('x')),
@@ -227,6 +282,9 @@ def synthetic():
 
 
 MUTANTS = [
+    Mutant('gmd-inverse-permutation-wrong-slot', MISC, 'gmd', [('replace', 'invperm[i] = j', 'invperm[k1] = j')], r'C20\.f:gmd'),
+    Mutant('dBm2Linear-in-place', CONV, 'dBm2Linear', [('regex', r'    return dB2Linear\(valueIndBm\) / 1000\.0', '    valueIndBm -= 30\n    return dB2Linear(valueIndBm)')],
+           r'C20\.e:dBm2Linear'),
     Mutant('dB2Linear-divides-by-20', CONV, 'dB2Linear', [('replace', 'valueIndB / 10.0', 'valueIndB / 20.0')],
            r'C20\.a:(linear2dB|dB2Linear|linear2dBm|dBm2Linear)'),
     Mutant('linear2dBm-times-100', CONV, 'linear2dBm', [('replace', '1000.0', '100.0')], r'C20\.a:(linear2dBm|dBm2Linear)'),
